@@ -177,15 +177,20 @@ def scanMatches (s : Store) (cfg : ScanCfg) (addTime : Bytes) : List Bytes → B
     else if first then scanMatches s cfg addTime ms false   -- key() = b"" → next_match()
     else []                                                  -- `if skipped … else: break`
 
+/-- `x.to_bytes(4, "big")` of an optional bound; outer `none` = OverflowError -/
+def encOpt : Option Int → Option (Option Bytes)
+  | none => some none
+  | some x => (be32 x).map some
+
 /-- match path of `Index.scanner` (after the stop-key fix: `stop = compiled_matches[-1]`) -/
 def scanIndex (s : Store) (mats : List Bytes) (since until_ : Option Int)
-    (events : Option (List Bytes)) : Option (List Bytes) := do
-  let sB ← match since with | some x => (be32 x).map some | none => some none
-  let uB ← match until_ with | some x => (be32 x).map some | none => some none
+    (events : Option (List Bytes)) : Option (List Bytes) :=
+  (encOpt since).bind fun sB =>
+  (encOpt until_).bind fun uB =>
   let addTime := match uB with | some u => [0] ++ u ++ [0] | none => []
   let stop0 := mats.getLastD []
   let stop := match sB with | some sn => stop0 ++ [0] ++ sn | none => stop0
-  pure (scanMatches s ⟨sB, uB, stop, events⟩ addTime mats true)
+  some (scanMatches s ⟨sB, uB, stop, events⟩ addTime mats true)
 
 /-- range path of `Index.scanner` (no mats): used by the created_at index, prefix `pfx` -/
 def scanRange (s : Store) (pfx : Bytes) (since until_ : Option Int) : Option (List Bytes) := do
@@ -211,25 +216,15 @@ def isParamReplaceable (k : Int) : Bool := 30000 ≤ k && k < 40000
 def dName : Bytes := [100]   -- "d"
 def eName : Bytes := [101]   -- "e"
 
-/-- `[tag[1] for tag in event.tags if tag[0] == "d"][0]`, IndexError ⇒ `None`.
-    The comprehension is evaluated completely: an empty tag (`tag[0]`) or a d-tag without a
-    value (`tag[1]`) anywhere raises; so does `[][0]` when there is no d-tag. -/
-def dTagOf (tags : List (List Bytes)) : Option Bytes :=
-  if tags.any (fun t => t.isEmpty || (t.head? == some dName && t.length < 2)) then none
-  else ((tags.filter (·.head? == some dName)).head?).map (·.getD 1 [])
+/-- `WriterThread._d_value`: the value of the first "d" tag, "" when it is bare or there is none
+    (NIP-33); `none` = IndexError (`tag[0]` on an empty tag met before a d-tag) -/
+def dValue : List (List Bytes) → Option Bytes
+  | [] => some []
+  | [] :: _ => none
+  | (n :: vs) :: rest => if n = dName then some (vs.headD []) else dValue rest
 
-/-- `all(candidate.has_tag("d", d_tag))` where `d_tag` is a *string*: `tag[1] in d_tag` is a
-    substring test, `mats` is falsy for `""`, and the returned match must itself be truthy.
-    `none` = IndexError (`tag[0]` on an empty tag). -/
-def hasTagDAll (cand : Event) (dTag : Bytes) : Option Bool :=
-  if cand.tags.any (·.isEmpty) then none else
-  let found := cand.tags.any fun t => t.head? == some dName
-  let qual := cand.tags.filter fun t =>
-    t.head? == some dName && !dTag.isEmpty && t.length > 1 && isSubstr (t.getD 1 []) dTag
-  let m := qual.getLast?.map (·.getD 1 [])
-  some (found && (match m with | some v => !v.isEmpty | none => false))
-
-/-- the deletion loop of the replaceable branch over the scanned candidate ids -/
+/-- the deletion loop of the replaceable branch over the scanned candidate ids;
+    `dTag = none` for the non-parameterised kinds -/
 def replaceLoop (e : Event) (dTag : Option Bytes) (s : Store) : List Bytes → Option Store
   | [] => some s
   | id :: rest =>
@@ -239,17 +234,18 @@ def replaceLoop (e : Event) (dTag : Option Bytes) (s : Store) : List Bytes → O
     | some cand =>
       match dTag with
       | some d =>
-        (match hasTagDAll cand d with
+        (match dValue cand.tags with
          | none => none
-         | some false => replaceLoop e dTag s rest
-         | some true => (deleteEvent s cand).bind fun s' => replaceLoop e dTag s' rest)
+         | some cd =>
+           if cd = d then (deleteEvent s cand).bind fun s' => replaceLoop e dTag s' rest
+           else replaceLoop e dTag s rest)
       | none => (deleteEvent s cand).bind fun s' => replaceLoop e dTag s' rest
 
 /-- `_post_save` replaceable branch -/
-def postSaveReplaceable (s : Store) (e : Event) : Option Store := do
-  let dTag := if isParamReplaceable e.kind then dTagOf e.tags else none
-  let kd ← be32 e.kind
-  let ids ← scanIndex s [[4] ++ e.pubkey ++ [0] ++ kd] none (some e.createdAt) none
+def postSaveReplaceable (s : Store) (e : Event) : Option Store :=
+  (if isParamReplaceable e.kind then (dValue e.tags).map some else some none).bind fun dTag =>
+  (be32 e.kind).bind fun kd =>
+  (scanIndex s [[4] ++ e.pubkey ++ [0] ++ kd] none (some e.createdAt) none).bind fun ids =>
   replaceLoop e dTag s ids
 
 /-- ids referenced by a kind-5 event; outer `none` = exception that aborts the transaction
